@@ -70,6 +70,19 @@ CHECKS["C16"] = {
     "note": "Trusted: purity of caller-supplied callbacks; rtree nearest() (library).",
 }
 
+CHECKS["C15"] = {
+    "engine": "sa",
+    "technique": "schema conformance by exact polynomial normal forms (abstract interpretation of the loop body into Q[p1,p2,c,h] with |.| atoms)",
+    "design_ref": "DESIGN.md section 4 C15",
+    "text": ("Decides for every segment and every set of boxes that the obstruction test IS the separating-axis test: the "
+             "conditions guarding the accepting path are, as exact polynomial normal forms over the segment end points and "
+             "the box (centre, half extents), precisely the six negated strict separating-axis inequalities, with the "
+             "reject-next-box / accept / default-False control skeleton and (min, max) corner storage. Exactness including "
+             "boundary contact then follows from the separating-axis theorem; this is as strong as a static argument gets "
+             "here. Floating-point rounding within 1e-9 of contact is not decided."),
+    "note": "Trusted: separating-axis theorem for a segment and an axis-aligned box; NumPy element-wise arithmetic.",
+}
+
 _PENDING = "rule module not yet built in this round (see DESIGN.md section 4 for the planned static rules)"
 for _i in range(1, 21):
     _p = "C%02d" % _i
